@@ -229,6 +229,39 @@ def exit_program(case, collide):
     return decl + f"function main() -> void {{ {use} }}\n"
 
 
+# Destructor chains: every class of a 2-3 deep hierarchy has a destructor; the derived destructors declare locals, the base
+# destructors read their own fields by bare name.  Rendered twice: locals with fresh names, and locals named like the fields
+# the ANCESTOR destructors read (seeded change C09-a4: one frame shared by the whole chain).  No name is printed.
+
+@st.composite
+def dtor_case(draw):
+    return {"kind": "dtor", "depth": draw(st.integers(2, 3)), "vals": draw(st.lists(st.integers(1, 90), min_size=6, max_size=6)),
+            "how": draw(st.sampled_from(["scope", "destroy", "function"])), "collide": draw(st.lists(st.booleans(), min_size=4, max_size=4)),
+            "write": draw(st.booleans())}
+
+
+def dtor_program(case, collide):
+    v = case["vals"]
+    col = case["collide"] if collide else [False] * 4
+    x, y = ("f0" if col[0] else "x1"), ("g0" if col[1] else "y1")
+    p, q = ("f1" if col[2] else "p2"), ("g0" if col[3] else "q2")
+    wr = " f0 = f0 + 1; echo(f0);" if case["write"] else ""
+    src = (f"class K0 {{ protected int f0 = {v[0]}; public int g0 = {v[1]}; public constructor() -> K0 {{ }} "
+           f"destructor() -> void {{ echo(\"K0 \" + f0 + \" \" + g0);{wr} }} }}\n"
+           f"class K1 extends K0 {{ protected int f1 = {v[2]}; public constructor() -> K1 {{ }} "
+           f"destructor() -> void {{ int {x} = {v[3]}; int {y} = {v[4]}; {x} = {x} + 1; echo(\"K1 \" + ({x} * 100 + {y}) + \" \" + f1); }} }}\n")
+    top = "K1"
+    if case["depth"] == 3:
+        src += (f"class K2 extends K1 {{ public constructor() -> K2 {{ }} "
+                f"destructor() -> void {{ int {p} = {v[5]}; int {q} = {v[3]} + 2; echo(\"K2 \" + ({p} * 100 + {q})); }} }}\n")
+        top = "K2"
+    if case["how"] == "function":
+        return src + f"function work() -> void {{ {top} s = new {top}(); echo(\"w\"); }}\nfunction main() -> void {{ work(); echo(\"done\"); }}\n"
+    if case["how"] == "destroy":
+        return src + f"function main() -> void {{ {top} s = new {top}(); echo(\"w\"); destroy s; echo(\"done\"); }}\n"
+    return src + f"function main() -> void {{ {{ {top} s = new {top}(); echo(\"w\"); }} echo(\"done\"); }}\n"
+
+
 class C09(Check):
     prop = "C09"
     rule = ("programs from the classic and classes profiles; one local/parameter of one function/method/constructor renamed to a "
@@ -243,7 +276,8 @@ class C09(Check):
         return genclass.render(p) if p.get("classes") else genprog.render_program(p)
 
     def exit_run(self, case, sc, stats=None):
-        s1, s2 = exit_program(case, False), exit_program(case, True)
+        dtor = case["kind"] == "dtor"
+        s1, s2 = (dtor_program(case, False), dtor_program(case, True)) if dtor else (exit_program(case, False), exit_program(case, True))
         r1 = progrun.run_cli(self.drv, sc, s1)
         r2 = progrun.run_cli(self.drv, sc, s2)
         if r1.proc.timeout or r2.proc.timeout:
@@ -252,7 +286,8 @@ class C09(Check):
             if r.proc.crashed() or r.rc != 0:
                 return {"why": f"early-exit program failed: rc={r.rc} {r.stderr_lines[-1:]}", "source": s_, **r.proc.brief()}
         if stats is not None:
-            stats.record(case, any(case["collide"]) and case["r"] < case["n"], tags=["early_exit_family", "shape_" + case["shape"]],
+            nt = any(case["collide"][:2 if case["depth"] == 2 else 4]) if dtor else (any(case["collide"]) and case["r"] < case["n"])
+            stats.record(case, nt, tags=["destructor_chain_family", "destroyed_by_" + case["how"]] if dtor else ["early_exit_family", "shape_" + case["shape"]],
                          sample={"disjoint": s1, "colliding": s2})
         if list(r1.stdout_lines) != list(r2.stdout_lines):
             return {"why": "giving the caller's variables the names of the callee's parameters / locals changed the output",
@@ -260,7 +295,7 @@ class C09(Check):
         return None
 
     def run_case(self, case, sc, stats=None):
-        if case.get("kind") == "exit":
+        if case.get("kind") in ("exit", "dtor"):
             return self.exit_run(case, sc, stats)
         if case.get("skip"):
             return None
@@ -338,6 +373,9 @@ def _worker(widx, wseed, tier, check):
             if f:
                 failures.append(f)
         f = hyp_search(exit_case(), prop, derive_seed(wseed, "exit"), 40 if quick else 1000, stats)
+        if f:
+            failures.append(f)
+        f = hyp_search(dtor_case(), prop, derive_seed(wseed, "dtor"), 25 if quick else 400, stats)
         if f:
             failures.append(f)
     return {"stats": stats.export(), "failures": failures}
